@@ -180,11 +180,47 @@ func genFileSet(r *rand.Rand, o mergeGenOpt) []*mfile {
 	for c := 0; c < o.Conflicts; c++ {
 		f := files[r.Intn(len(files))]
 		d := f.Doc
-		k := r.Intn(9)
-		if f.Broken == "nonmodule" && k < 6 {
+		k := r.Intn(10)
+		if f.Broken == "nonmodule" && (k < 6 || k == 9) {
 			continue // declarations are only injected into module files
 		}
 		switch k {
+		case 9: // two known conditions re-declared in ONE file, one name a prefix of the other, the longer one first
+			pair := [][2]string{{"c10", "c1"}, {"c1", "c"}, {"cond2", "c"}, {"C1", "C"}, {"is_valid", "is_valid"}}[r.Intn(4)]
+			if len(files) < 2 {
+				continue
+			}
+			first := files[0]
+			if first == f {
+				first = files[1]
+			}
+			if first.Broken != "" || f.Broken != "" {
+				continue
+			}
+			has := func(d *gen.Doc, n string) bool {
+				for _, cd := range d.Conds {
+					if cd.Name == n {
+						return true
+					}
+				}
+				return false
+			}
+			clean := true
+			for _, n := range pair {
+				if has(f.Doc, n) {
+					clean = false
+				}
+			}
+			if !clean {
+				continue
+			}
+			for _, n := range pair {
+				if !usedConds[n] {
+					usedConds[n] = true
+					first.Doc.Conds = append(first.Doc.Conds, gen.Cond{Name: n, Params: []gen.Param{{Name: "x", Type: "int"}}, Expr: "x < 1"})
+				}
+				d.Conds = append(d.Conds, gen.Cond{Name: n, Params: []gen.Param{{Name: "q", Type: "int"}}, Expr: "q > 0"})
+			}
 		case 0, 1: // duplicate type (other or same file)
 			if len(defined) == 0 {
 				continue
